@@ -7,6 +7,8 @@ import (
 	"strconv"
 	"strings"
 	"time"
+
+	ucfg "github.com/elastic/go-ucfg"
 )
 
 // ---------------------------------------------------------------------------
@@ -26,6 +28,7 @@ const (
 	kMapPrim
 	kMapPtrStruct
 	kMapStruct
+	kConfig // *ucfg.Config: a captured sub-configuration, merged per policy
 	kOpaque // unexported field: never generated for, only compared
 )
 
@@ -85,6 +88,7 @@ var (
 	tUint64    = reflect.TypeOf(uint64(0))
 	tFloat32   = reflect.TypeOf(float32(0))
 	tFloat64   = reflect.TypeOf(float64(0))
+	tConfigPtr = reflect.TypeOf((*ucfg.Config)(nil))
 )
 
 func implementsPtr(t, iface reflect.Type) bool {
@@ -158,6 +162,8 @@ func (f *field) shape() string {
 		return "map-ptr-struct"
 	case kMapStruct:
 		return "map-struct"
+	case kConfig:
+		return "config"
 	}
 	return "opaque"
 }
@@ -220,6 +226,8 @@ func describe(t reflect.Type) *stype {
 			f.kind, f.prim, f.hasInit = kPrim, ft, implementsPtr(ft, tIniter)
 		case ft.Kind() == reflect.Ptr && isPrimType(ft.Elem()):
 			f.kind, f.prim = kPtrPrim, ft.Elem()
+		case ft == tConfigPtr:
+			f.kind = kConfig
 		case ft.Kind() == reflect.Struct:
 			f.kind, f.sub = kStruct, describe(ft)
 		case ft.Kind() == reflect.Ptr && ft.Elem().Kind() == reflect.Struct:
@@ -299,7 +307,10 @@ func (g *tgen) tag(num int, opts []string, extra string) reflect.StructTag {
 }
 
 var listPols = []string{"append", "prepend", "replace", "merge"}
-var inheritPols = []string{"append", "prepend", "replace"}
+
+// structPols: tag options on struct-typed fields (inherited by the sub-fields).
+// merge counts double: it only shows where an outer policy is in force.
+var structPols = []string{"append", "prepend", "replace", "merge", "merge"}
 
 // primStruct: a struct of 1-3 primitive fields (element of lists and maps).
 func (g *tgen) primStruct() reflect.Type {
@@ -324,7 +335,7 @@ func (g *tgen) structType(depth, nf int, validators bool) reflect.Type {
 		sf := reflect.StructField{Name: "F" + strconv.Itoa(num)}
 		var opts []string
 		extra := ""
-		x := r.Intn(100)
+		x := r.Intn(105)
 		if depth == 0 && x >= 44 && x < 62 {
 			x = r.Intn(44)
 		}
@@ -347,19 +358,19 @@ func (g *tgen) structType(depth, nf int, validators bool) reflect.Type {
 			sf.Type = reflect.PtrTo(primTypes[r.Intn(len(primTypes))])
 		case x < 51: // struct by value
 			sf.Type = nested(validators)
-			if r.Intn(3) == 0 {
-				opts = append(opts, inheritPols[r.Intn(len(inheritPols))])
+			if r.Intn(5) < 2 {
+				opts = append(opts, structPols[r.Intn(len(structPols))])
 			}
 		case x < 57: // pointer to struct
 			sf.Type = reflect.PtrTo(nested(false))
-			if r.Intn(3) == 0 {
-				opts = append(opts, inheritPols[r.Intn(len(inheritPols))])
+			if r.Intn(5) < 2 {
+				opts = append(opts, structPols[r.Intn(len(structPols))])
 			}
 		case x < 62: // inline struct by value (generated only: names stay unique)
 			sf.Type = g.structType(depth-1, 1+r.Intn(3), validators)
 			opts = append(opts, []string{"inline", "inline", "squash"}[r.Intn(3)])
-			if r.Intn(3) == 0 {
-				opts = append(opts, inheritPols[r.Intn(len(inheritPols))])
+			if r.Intn(5) < 2 {
+				opts = append(opts, structPols[r.Intn(len(structPols))])
 			}
 		case x < 76:
 			sf.Type = reflect.SliceOf(elemTypes[r.Intn(len(elemTypes))])
@@ -380,8 +391,13 @@ func (g *tgen) structType(depth, nf int, validators bool) reflect.Type {
 			sf.Type = reflect.MapOf(tString, elemTypes[r.Intn(len(elemTypes))])
 		case x < 97:
 			sf.Type = reflect.MapOf(tString, reflect.PtrTo(g.primStruct()))
-		default:
+		case x < 100:
 			sf.Type = reflect.MapOf(tString, g.primStruct())
+		default: // *ucfg.Config capturing a sub-configuration
+			sf.Type = tConfigPtr
+			if r.Intn(2) == 0 {
+				opts = append(opts, listPols[r.Intn(len(listPols))])
+			}
 		}
 		if len(opts) == 0 && extra == "" && r.Intn(12) == 0 {
 			opts = append(opts, "ignore") // never together with inline, a policy or a validator
